@@ -149,7 +149,8 @@ def execute_flow(cfg, schedule=None, rng=None, max_yields=None, keep_dir=False, 
         line_set = schedule.get("line_set", "none")
     out_dir = tempfile.mkdtemp(prefix="poolsim-", dir=env.scratch_root())
     sim = Sim(decider, clock, QUARA_DIR, max_yields=max_yields, line_files=LINE_FILE_SETS.get(line_set, ()), out_dir=out_dir,
-              probes=stats_p, faults=stats_f, proc_seed=parent_seed + 17, pollution=pollution, mutators=MUTATORS if line_set == "mutators" else None)
+              probes=stats_p, faults=stats_f, proc_seed=parent_seed + 17, pollution=pollution, mutators=MUTATORS if line_set == "mutators" else None,
+              xpol=None if is_ref else schedule.get("xpol"))
     cwd_before = os.getcwd()
     if not is_ref and schedule.get("worker_cwd"):
         # at another depth of the tree than the caller's directory, so that a relative path means something else there
@@ -166,6 +167,7 @@ def execute_flow(cfg, schedule=None, rng=None, max_yields=None, keep_dir=False, 
         stats_f["stale_output_dir"] = 1
     crash = None if is_ref else schedule.get("crash")
     disk = DiskSeam(out_dir, crash_at=(crash or {}).get("at_write"), torn=(crash or {}).get("torn"), enospc_at=None if is_ref else schedule.get("enospc_at"))
+    disk.sim = sim
     saved = ProcGlobals.capture()
     ProcGlobals(np_seed=(parent_seed * 2654435761 + 12345) % (2 ** 32), py_seed=parent_seed + 99).install()
     if cfg.get("parent_atol"):
@@ -265,7 +267,7 @@ def _clean_schedule(rec):
         out["proc"].append({k: v for k, v in e.items() if not k.startswith("_")})
     for e in rec.get("threads", []):
         out["threads"].append({k: v for k, v in e.items() if not k.startswith("_")})
-    for k in ("policy", "line_set", "parent_seed"):
+    for k in ("policy", "line_set", "parent_seed", "xpol"):
         if k in rec:
             out[k] = rec[k]
     return out
@@ -355,6 +357,16 @@ def run_record(record, want_record=True, gen=None):
         if gen:
             rng = rng_for(gen["seed"], f"poolsim-sched-{si}")
             sched = gen_schedule_header(rng, cfg, gen["fault_free"], est, si)
+            if not gen["fault_free"]:
+                # extended policy, drawn from a stream of its own: file opens / closes as scheduling points of the thread
+                # level; pre-emption of a thread right after it assigned an attribute that another thread assigned last
+                xr = rng_for(gen["seed"], f"poolsim-xpol-{si}")
+                xp = {"salt": xr.randrange(1 << 30)}
+                if xr.random() < 0.5:
+                    xp.update(io_yield=True, io_rate=xr.choice([0.2, 0.5, 0.8]))
+                if xr.random() < 0.6:
+                    xp.update(race_probe=True, race_rate=xr.choice([0.3, 0.7, 1.0]), race_quantum=xr.choice([0, 3000, 30000, 10 ** 9]))
+                sched["xpol"] = xp
             record["schedules"].append(sched)
         else:
             rng = None
@@ -407,6 +419,7 @@ def run_record(record, want_record=True, gen=None):
             stats["probes"]["backwards_clock_inside_timed_section"] = stats["probes"].get("backwards_clock_inside_timed_section", 0) + clk.back_inside_timed
         sim = run["sim"]
         stats.setdefault("sets", {}).setdefault("switch_sites", set()).update(sim.switch_sites)
+        stats["sets"].setdefault("conflicting_attribute_write_sites", set()).update(sim.shared_write_sites)
         key = digest(sim.events + [[t["call"], t.get("first"), t.get("switches")] for t in sched.get("threads", [])])
         sched_keys.append(key)
         if sum(run["faults"].values()):
